@@ -1554,17 +1554,8 @@ int input_to (svalue_t * fun, int flag, int num_arg, svalue_t * args) {
   if (!command_giver || command_giver->flags & O_DESTRUCTED)
     return 0;
 
-  s = alloc_sentence ();
-  if (!set_call (command_giver, s, flag & ~I_SINGLE_CHAR))
-    {
-      /* LPC spec. says if input_to() is called more than once, only the first call succeeds.
-       * No error is raised for subsequent calls, but the sentence created for the subsequent
-       * call should be freed to avoid memory leaks.
-       */
-      free_sentence (s);
-      return 0;
-    }
-
+  /* Resolve the callback first: an error raised here must not leave a half-built sentence
+   * installed on the interactive (the next input line would call a null function). */
   /* Convert string to function pointer or use existing funptr */
   if (fun->type == T_STRING)
     {
@@ -1586,8 +1577,19 @@ int input_to (svalue_t * fun, int flag, int num_arg, svalue_t * args) {
     }
   else
     {
-      free_sentence (s);
       error ("input_to: fun must be string or function");
+    }
+
+  s = alloc_sentence ();
+  if (!set_call (command_giver, s, flag & ~I_SINGLE_CHAR))
+    {
+      /* LPC spec. says if input_to() is called more than once, only the first call succeeds.
+       * No error is raised for subsequent calls, but the sentence created for the subsequent
+       * call should be freed to avoid memory leaks.
+       */
+      free_sentence (s);
+      free_funp (callback_funp);
+      return 0;
     }
 
   /* Store function pointer (always use V_FUNCTION now) */
@@ -1623,18 +1625,7 @@ int get_char (svalue_t * fun, int flag, int num_arg, svalue_t * args) {
   if (!command_giver || command_giver->flags & O_DESTRUCTED)
     return 0;
 
-  s = alloc_sentence ();
-  if (!set_call (command_giver, s, flag | I_SINGLE_CHAR))
-    {
-      /* LPC spec. says if get_char() is called more than once, only the first call succeeds.
-       * No error is raised for subsequent calls, but the sentence created for the subsequent
-       * call should be freed to avoid memory leaks.
-       */
-      free_sentence (s);
-      return 0;
-    }
-
-  /* Convert string to function pointer or use existing funptr */
+  /* as in input_to(): resolve the callback before the sentence is installed */
   if (fun->type == T_STRING)
     {
       /* Find function in current_object and create FP_LOCAL function pointer */
@@ -1655,8 +1646,19 @@ int get_char (svalue_t * fun, int flag, int num_arg, svalue_t * args) {
     }
   else
     {
-      free_sentence (s);
       error ("get_char: fun must be string or function");
+    }
+
+  s = alloc_sentence ();
+  if (!set_call (command_giver, s, flag | I_SINGLE_CHAR))
+    {
+      /* LPC spec. says if get_char() is called more than once, only the first call succeeds.
+       * No error is raised for subsequent calls, but the sentence created for the subsequent
+       * call should be freed to avoid memory leaks.
+       */
+      free_sentence (s);
+      free_funp (callback_funp);
+      return 0;
     }
 
   /* Store function pointer (always use V_FUNCTION now) */
